@@ -322,7 +322,7 @@ func runChild(self string, j *job, uid int) (*outcome, error) {
 							o.exit = ws.ExitStatus()
 						}
 					}
-				case <-time.After(150 * time.Millisecond):
+				case <-time.After(time.Second): // (generous: on a loaded machine the end of a whole process may take a while to be reaped)
 					if othersAlive(cmd.Process.Pid, tid) {
 						o.gone = at
 					}
